@@ -155,6 +155,18 @@ func originsOf(v ssa.Value, conds map[string]bool, field string, seen map[ssa.Va
 			return []origin{{"NIL", v, conds}}
 		}
 	case *ssa.Parameter:
+		if kinds, ok := transitParamKind[x.Parent()]; ok {
+			for i, prm := range x.Parent().Params {
+				if prm == x {
+					switch kinds[i] {
+					case "E":
+						return []origin{{"ENCR", v, conds}}
+					case "P":
+						return []origin{{"PLAIN-BUF", v, conds}}
+					}
+				}
+			}
+		}
 		return []origin{{"PARAM", v, conds}}
 	case *ssa.UnOp:
 		// load of a local variable that was spilled because a closure captures it
@@ -349,16 +361,92 @@ func writeEntries(p *core.Prog) []*ssa.Function {
 	return out
 }
 
+// transitParamKind: for an unexported function that receives buffers and decides
+// itself, per reader, which one to send (it branches on an SRTP context), the
+// kind of each []byte parameter as established at its call sites:
+// "E" encrypt output (or nil), "P" plain.
+var transitParamKind map[*ssa.Function]map[int]string
+
+// isTransitHelper: fn is an unexported function of the root package with a
+// []byte parameter whose body tests an SRTP output context.
+func isTransitHelper(fn *ssa.Function) bool {
+	if fn == nil || fn.Blocks == nil || token.IsExported(fn.Name()) || core.FuncPkg(fn) == nil || core.FuncPkg(fn).Path() != core.ModPath {
+		return false
+	}
+	hasBuf := false
+	for _, prm := range fn.Params {
+		if isByteSlice(prm.Type()) {
+			hasBuf = true
+		}
+	}
+	if !hasBuf {
+		return false
+	}
+	for _, b := range fn.Blocks {
+		if iff, ok := b.Instrs[len(b.Instrs)-1].(*ssa.If); ok {
+			if _, ok := srtpCondOf(iff.Cond, true, "srtpOutCtx"); ok {
+				return true
+			}
+		}
+	}
+	return false
+}
+
 func c17EncryptBeforeSink(c *Ctx) {
 	p, r := c.P, c.R
+	transitParamKind = map[*ssa.Function]map[int]string{}
 	r.Rule("C17/ENCRYPT-BEFORE-SINK", "in every function that can encrypt, a byte buffer that leaves towards the write queue or a socket is the output of encryptRTP/encryptRTCP whenever an SRTP output context is known to be set; a plain (marshalled) buffer leaves only on an edge where the context is nil", 18)
 	entries := writeEntries(p)
+	queued := map[*ssa.Function]bool{}
 	for _, fn := range entries {
+		queued[fn] = true
+	}
+	for qi := 0; qi < len(entries); qi++ {
+		fn := entries[qi]
 		escs := escapesOf(fn)
 		nth := 0
 		for _, e := range escs {
 			nth++
 			base := mergeConds(condsAt(e.at.Block(), "srtpOutCtx"), e.extra)
+			// a buffer handed to a helper that chooses per reader is followed into the helper
+			if call, ok := e.at.(*ssa.Call); ok && isTransitHelper(call.Call.StaticCallee()) {
+				h := call.Call.StaticCallee()
+				for ai, a := range call.Call.Args {
+					if a != e.val {
+						continue
+					}
+					kind := ""
+					for _, o := range originsOf(e.val, base, "srtpOutCtx", map[ssa.Value]bool{}) {
+						k := "?"
+						switch o.kind {
+						case "ENCR", "NIL":
+							k = "E"
+						case "PLAIN-MARSHAL", "PLAIN-BUF":
+							k = "P"
+						}
+						if kind == "" || kind == k || o.kind == "NIL" {
+							if o.kind != "NIL" || kind == "" {
+								kind = k
+							}
+						} else {
+							kind = "?"
+						}
+					}
+					if transitParamKind[h] == nil {
+						transitParamKind[h] = map[int]string{}
+					}
+					if old, had := transitParamKind[h][ai]; had && old != kind {
+						kind = "?"
+					}
+					transitParamKind[h][ai] = kind
+				}
+				if !queued[h] {
+					queued[h] = true
+					entries = append(entries, h)
+				}
+				r.OK("C17/ENCRYPT-BEFORE-SINK", fmt.Sprintf("%s escape#%d (%s) followed into the helper", fnShort(fn), nth, e.what), p.Pos(e.at.Pos()), "the helper decides per reader; its own escapes are checked")
+				continue
+			}
 			for _, o := range originsOf(e.val, base, "srtpOutCtx", map[ssa.Value]bool{}) {
 				construct := fmt.Sprintf("%s escape#%d (%s) origin %s", fnShort(fn), nth, e.what, o.kind)
 				anyNil, anyNonNil := false, false
